@@ -130,11 +130,15 @@ CHECKS = {
               "alphabets by decide), C16_nothing_carried_over (for ANY prior state, incl. a reused Router object with stale values: after "
               "_create_router the object under the identity has exactly the entry's attributes — bandwidth 0 without a w line, only its own IPv6 "
               "addresses and flags — and a relay known before keeps its object), C16_guards_exact / C16_authorities_exact / C16_identities_exact "
-              "(after a replacement consensus these collections hold exactly what the new document prescribes). The parser machine incl. the "
+              "(after a replacement consensus these collections hold exactly what the new document prescribes), C16_relays_exact / C16_relays_exact_boot / "
+              "C16_relays_exact_run (Props/C16b: for documents with distinct relay identities, after the bootstrap listing and ANY sequence of replacement "
+              "documents the relays reachable through the identity index are exactly those of the last document, with exactly its attributes, in its "
+              "order — invariant: object ids in the index are pairwise distinct and allocated, so writing one relay's object never disturbs another's), "
+              "C16_identity_kept (a relay in consecutive documents keeps its Router object). The parser machine incl. the "
               "repaired 'p without w' transition is modelled. The equality of the whole six-index view with viewOfDoc is checked differentially: "
               "real TorState (bootstrap ns/all + NEWCONSENSUS events) vs model view vs spec view after every document, plus object identity."),
-        note=NOTE_COMMON + "Partial: uniqueness of nicknames (routers[name]), by-name lists and identity preservation across documents are compared with the spec by the "
-             "correspondence run, not proved; line classification by the parser's lambdas is rendered by the harness (typed lines).",
+        note=NOTE_COMMON + "Partial: uniqueness of nicknames (routers[name]) and the by-name lists are compared with the spec by the "
+             "correspondence run, not proved; the run-level theorems assume distinct relay identities within a document (dir-spec); line classification by the parser's lambdas is rendered by the harness (typed lines).",
         technique="Lean 4: codec bijection (omega/decide), per-step and fold-invariant theorems on the index maintenance; differential correspondence of full views",
         ref='§4 C16'),
     'C17': dict(
@@ -184,10 +188,12 @@ CHECKS = {
               "C08_built_event, C08_when_built_now (immediate success iff BUILT or built before, immediate failure iff closed first, otherwise queued), "
               "C08_observer_once (a SingleObserver reaches exactly its waiters on the first fire and nobody on a later one), C08_close_shared / "
               "C08_stream_close_shared (first request sends the command, later ones are chained to the same pending close), C08_close_order (acknowledged "
-              "first: waits for the event; event first: completes with the acknowledgement; rejection fails it), C08_fresh_deferred. Correspondence: "
+              "first: waits for the event; event first: completes with the acknowledgement; rejection fails it), C08_fresh_deferred, "
+              "C08_fired_at_most_once / C08_fired_was_handed_out (Props/C08b: over every input sequence from the start no Deferred id is fired twice, a fired one is owed "
+              "by nothing afterwards, and only ids already handed out are fired — an invariant counting each id among pending and fired, kept by all 16 inputs). Correspondence: "
               "listeners/waits/closes at every position, answers before or after the CLOSED event."),
-        note=TS_NOTE + "'Each wait completes exactly once' is proved per container (observer, pending close) and per request kind; the global statement over whole runs "
-             "(no Deferred id is ever fired twice) is checked by the correspondence run on every case, not by a run-level theorem.",
+        note=TS_NOTE + "'Each wait completes exactly once' is proved per container (observer, pending close), per request kind, and as a run-level invariant "
+             "(at most once over whole runs); that a wait is eventually completed depends on Tor sending the event and is not a theorem.",
         technique="Lean 4: theorems on the notification rounds and wait containers of the live-state model for all listener behaviours; differential correspondence",
         ref='§4.1, §4 C08'),
     'C09': dict(
@@ -260,11 +266,15 @@ CHECKS = {
         text=("C20_refines: for EVERY history of ADDRMAP lines (all token forms: local-time field, EXPIRES=, NEVER, <error>, extra flags) and clock "
               "advances, with any expiry offset past or future, the model's map equals the spec's (Tor's latest mapping per name under the clock: "
               "same names, addresses, expiry times) and the listeners hear exactly the spec's notifications, step by step; C20_lookup_name; "
+              "C20_lookup_addr (Props/C20b: after every history in which no line gives a name an address another known name holds, lookup by address "
+              "returns exactly the spec's live latest mapping carrying it, and nothing once that mapping expired or was replaced — invariant AK: names "
+              "distinct, address keys distinct, every key points at a record with that address, every record's address has its key); "
               "C20_replace; spec_all_live. Proved by a refinement invariant (each pending timer is the callLater of the mapping's current expiry) "
               "through update / tick / advance. Correspondence: real AddrMap on task.Clock with a pinned utcnow; every name and address looked "
               "up after every input."),
-        note=NOTE_COMMON + "shlex/strptime/utcnow are outside the model (lines enter tokenised). Lookup *by address* (the second dict key) is in the model and "
-             "compared with the spec in the correspondence run under 'no two live names share an address', but is not covered by a theorem; order among timers due in the same advance is not modelled.",
+        note=NOTE_COMMON + "shlex/strptime/utcnow are outside the model (lines enter tokenised). Lookup by address is proved under 'no two known names share an address' (histories "
+             "outside that are compared impl-vs-model only); a third of the correspondence histories go through a real TorState (GETINFO address-mappings/all at bootstrap + ADDRMAP events); "
+             "order among timers due in the same advance is not modelled.",
         technique="Lean 4: refinement of the timer-based map to a latest-mapping spec for all histories; differential correspondence",
         ref='§4 C20'),
 }
